@@ -576,6 +576,56 @@ Proof.
 Qed.
 
 
+(* ------------------------------------------------------------------ a request ends with its owner's context at the latest *)
+Definition LEInv (s : lstate) : Prop := forall m, In m (log s) -> end_ok (cs s) m = true.
+
+Lemma fend_le (s : lstate) f : fst (fend s f) <= cend_of s (fowner f).
+Proof.
+  unfold fend. destruct (fscript f) as [d v b|d|].
+  - destruct (fstart f + d <? cend_of s (fowner f)) eqn:E; cbn [fst]; [apply N.ltb_lt in E; lia|lia].
+  - destruct (fstart f + d <? cend_of s (fowner f)) eqn:E; cbn [fst]; [apply N.ltb_lt in E; lia|lia].
+  - cbn [fst]. lia.
+Qed.
+
+Lemma step_LEInv (s : lstate) t e : In (t, e) (candidates s) -> LEInv s -> LEInv (step s t e).
+Proof.
+  intros Hin L m Hm. rewrite step_cs. pose proof (candidate_kinds _ _ _ Hin) as K.
+  assert (App : forall x, In m (log s ++ [x]) -> end_ok (cs s) x = true -> end_ok (cs s) m = true).
+  { intros x H Hx. apply in_app_or in H. destruct H as [H|[<-|[]]]; [apply L; exact H|exact Hx]. }
+  destruct e as [i| |i]; cbn [Lookup.step] in Hm.
+  - destruct (known (lst s) nm); [apply L; exact Hm|]. destruct (fl s); [apply L; exact Hm|].
+    destruct (next_script s). cbn [log] in Hm. apply (App _ Hm). reflexivity.
+  - destruct K as (f & Ef & Et & _). rewrite Ef in Hm.
+    assert (E : end_ok (cs s) (MEnd (fowner f) t OAnswered) = true /\ end_ok (cs s) (MEnd (fowner f) t OFailed) = true).
+    { cbn [end_ok]. rewrite Et. pose proof (fend_le s f) as Le. unfold cend_of, cget in Le. split; apply N.leb_le; exact Le. }
+    destruct (fscript f); cbn [log] in Hm; apply (App _ Hm); tauto.
+  - destruct K as (_ & Et).
+    assert (E : end_ok (cs s) (MEnd i t OCtx) = true).
+    { cbn [end_ok]. rewrite Et. unfold cend_of, cget. apply N.leb_le. lia. }
+    destruct (fl s) as [f|]; [|apply L; exact Hm]. destruct (Nat.eqb (fowner f) i); [|apply L; exact Hm].
+    destruct (remove_nat i (waiting s)); [cbn [log] in Hm; apply (App _ Hm E)|].
+    destruct (wins s); destruct (next_script s); cbn [log] in Hm; apply in_app_or in Hm;
+      (destruct Hm as [Hm|[<-|[]]]; [apply (App _ Hm E)|reflexivity]).
+Qed.
+
+Theorem run_LEInv : forall fuel (s s' : lstate), LEInv s -> run fuel s = Some s' -> LEInv s' /\ cs s' = cs s.
+Proof.
+  induction fuel as [|k IH]; intros s s' L R; cbn [Lookup.run] in R.
+  - destruct (earliest (candidates s)) as [[t e]|]; inversion R; subst. auto.
+  - destruct (earliest (candidates s)) as [[t e]|] eqn:E; [|inversion R; subst; auto].
+    destruct (IH _ _ (@step_LEInv s t e (proj1 (earliest_min _ E)) L) R) as (A & B). split; auto. rewrite B. apply step_cs.
+Qed.
+
+(* every request in the service's log ends no later than the context of the caller it was made for *)
+Theorem request_ends_by_owner callers scr wn st fuel s' :
+  run fuel (init callers scr wn st) = Some s' ->
+  forall o t r, In (MEnd o t r) (log s') -> t <= fst (cend (nth o callers (C 0 None None))).
+Proof.
+  intros R o t r Hin. assert (L0 : LEInv (init callers scr wn st)) by (intros m []).
+  destruct (@run_LEInv fuel _ s' L0 R) as (L & Cs). cbn [init cs] in Cs. specialize (L _ Hin). rewrite Cs in L.
+  cbn [end_ok] in L. apply N.leb_le. exact L.
+Qed.
+
 (* ------------------------------------------------------------------ the cache's answers change nothing *)
 Notation cstate := (cstate V).
 Notation cstep := (@cstep V nm).
